@@ -100,6 +100,31 @@ func instantiate(r *rand.Rand, p []string) []string {
 	return q
 }
 
+// nestedPartner derives a path whose subtrees nest with those of p across a
+// "**": a concrete path below a place **.name addresses, or a **.name that
+// addresses a node on the way to the concrete p.
+func nestedPartner(r *rand.Rand, p []string) []string {
+	k := func() string { return gen.Keys[r.Intn(len(gen.Keys))] }
+	switch {
+	case isStarForm(p):
+		return genDoubleStar(r)
+	case isDoubleStar(p):
+		q := instantiate(r, p)
+		q = append(q, k())
+		if r.Intn(3) == 0 {
+			q = append(q, k())
+		}
+		return q
+	case len(p) >= 2:
+		at := r.Intn(len(p) - 1)
+		if isNum(p[at]) {
+			return genDoubleStar(r)
+		}
+		return []string{"**", p[at]}
+	}
+	return []string{"**", k(), p[0]}
+}
+
 // namesOnly: the pattern consists of names and "**" (no positions, no "*").
 func namesOnly(p []string) bool {
 	for _, s := range p {
